@@ -821,14 +821,18 @@ class KVGarbageCollector(BaseGarbageCollector):
                 event_id = key[-32:].hex()
                 to_del.append(event_id)
         # remove all expired events
-        start = INDEXES["tags"].to_key(("expiration", "0"))
-        end = INDEXES["tags"].to_key(("expiration", str(int(time()))))
+        # expiration values are decimal strings, so compare them as numbers
+        start = INDEXES["tags"].to_key(("expiration", ""))
+        now = int(time())
         if cursor.set_range(start):
             for key in cursor.iternext(values=False):
-                if key > end:
+                key = bytes(key)
+                if not key.startswith(start):
                     break
-                event_id = key[-32:].hex()
-                to_del.append(event_id)
+                expiration = key[len(start) : -38]
+                if expiration.isdigit() and int(expiration) < now:
+                    event_id = key[-32:].hex()
+                    to_del.append(event_id)
 
         cursor.close()
         if to_del:
